@@ -64,8 +64,63 @@ def _value_of_test(f, test):
         return None
     if isinstance(test, ast.Name):
         d = single_def(f, test.id)
-        return d.value if d is not None else None
+        if d is None or (isinstance(d.value, ast.List) and
+                         not d.value.elts):
+            return _accumulated_from(f, test.id)
+        return _same_emptiness(f, d.value)
     return test
+
+
+def _same_emptiness(f, e, depth=0):
+    """e, or the collection e is empty exactly together with: an
+    element-wise copy (comprehension without condition, list() / sorted() /
+    tuple() / set() of it), a name bound once to such, a list filled by one
+    unconditional append per element of a loop."""
+    from psa.rules.c05 import single_def
+    if depth > 4:
+        return e
+    if isinstance(e, (ast.ListComp, ast.SetComp, ast.GeneratorExp)) and len(
+            e.generators) == 1 and not e.generators[0].ifs:
+        return _same_emptiness(f, e.generators[0].iter, depth + 1)
+    if isinstance(e, ast.Call) and isinstance(
+            e.func, ast.Name) and e.func.id in (
+                'list', 'sorted', 'tuple', 'set', 'frozenset') and len(
+                    e.args) == 1 and not e.keywords:
+        return _same_emptiness(f, e.args[0], depth + 1)
+    if isinstance(e, ast.Name) and e.id not in f.params:
+        d = single_def(f, e.id)
+        if d is not None and d.value is not e and not (
+                isinstance(d.value, ast.List) and not d.value.elts):
+            return _same_emptiness(f, d.value, depth + 1)
+        acc = _accumulated_from(f, e.id, depth + 1)
+        if acc is not None:
+            return acc
+    return e
+
+
+def _accumulated_from(f, name, depth=0):
+    """``name = []`` then, in one loop that is under no condition,
+    ``name.append(..)`` under no condition: the iterable of that loop."""
+    stores = [n for n in own_nodes(f.node) if isinstance(n, ast.Assign)
+              and any(isinstance(t, ast.Name) and t.id == name
+                      for t in n.targets)]
+    if len(stores) != 1 or not (isinstance(
+            stores[0].value, ast.List) and not stores[0].value.elts):
+        return None
+    adds = [n for n in own_nodes(f.node) if isinstance(n, ast.Call)
+            and isinstance(n.func, ast.Attribute)
+            and isinstance(n.func.value, ast.Name)
+            and n.func.value.id == name]
+    if len(adds) != 1 or adds[0].func.attr != 'append':
+        return None
+    st = C.stmt_of(adds[0])
+    lp = getattr(st, '_parent', None)
+    if not isinstance(lp, ast.For) or st not in lp.body or lp.orelse or \
+            C.guarding_ifs(lp, f.node) or any(
+                isinstance(x, (ast.Break, ast.Continue, ast.Return))
+                for x in ast.walk(lp)):
+        return None
+    return _same_emptiness(f, lp.iter, depth + 1)
 
 
 def _tables_in(ctx, f, e, depth=0):
